@@ -485,6 +485,22 @@ impl DtlsInner {
             match DtlsRecord::decode(&mut data) {
                 Ok(None) => break,
                 Ok(Some(record)) => {
+                    // RFC 6347 4.1: epoch-0 records are plaintext. Application data is never
+                    // sent in epoch 0, alerts are not once keys exist, and nothing is once the
+                    // handshake has completed - drop them instead of acting on them.
+                    if record.epoch == 0 {
+                        let established = matches!(*self.state.lock(), DtlsState::Connected(..));
+                        let never_plain = record.content_type == ContentType::ApplicationData
+                            || (record.content_type == ContentType::Alert
+                                && ctx.session_keys.is_some());
+                        if established || never_plain {
+                            trace!(
+                                "Dropping unauthenticated epoch-0 {:?} record",
+                                record.content_type
+                            );
+                            continue;
+                        }
+                    }
                     let payload = match self.try_decrypt_record(&record, ctx, is_client) {
                         Ok(p) => p,
                         Err(e) => {
